@@ -92,6 +92,22 @@ def specs(tier):
                 spec['omen'] = dict(R.DEFAULT_OMEN, omen_prob=op)
                 yield spec
 
+    # structure lists that are NOT in descending order of probability (a merged or hand-edited grammar.txt; edit_rules.py keeps whatever order it
+    # finds): the queue owes its order to the heap, not to the order of the file
+    for term in TERMINALS[:2]:
+        for combo in itertools.combinations(STRUCTS, 2):
+            for probs in ([.3, .5], [.1, .9]):
+                spec = dict(term)
+                spec['grammar'] = list(zip(combo, probs))
+                spec['prince'] = list(reversed(PRINCE))
+                yield spec
+        for combo in list(itertools.combinations(STRUCTS, 3))[::(1 if tier == 'thorough' else 6)]:
+            for probs in ([.5, .1, .4], [.1, .4, .5], [.2, .3, .5]):
+                spec = dict(term)
+                spec['grammar'] = list(zip(combo, probs))
+                spec['prince'] = [PRINCE[2], PRINCE[0], PRINCE[3], PRINCE[1]]
+                yield spec
+
 
 def shards(tier):
     return [('disk', i, NSHARDS) for i in range(NSHARDS)]
